@@ -208,6 +208,13 @@ func dumpSwapSchema() (string, error) {
 		fmt.Fprintf(&b, "  (%s, %s, %s)", CoqZ(int64(t.Type)), CoqZ(int64(t.Role)), CoqStrList(t.States))
 	}
 	b.WriteString("].\n")
+	// static scan: every place in the non-test sources that writes a field called LastMessage
+	writes, err := scanFieldWrites("LastMessage")
+	if err != nil {
+		return "", err
+	}
+	b.WriteString("(* source positions (go/ast scan of all non-test files) that assign a field named LastMessage *)\n")
+	fmt.Fprintf(&b, "Definition last_message_writes : list string := %s.\n", CoqStrList(writes))
 	return b.String(), nil
 }
 
@@ -819,8 +826,80 @@ func allValidUTF8(v reflect.Value) bool {
 
 // ---------------------------------------------------------------- malformed records
 
+// collectLeaves gathers the string leaves stored under one of the given keys
+func collectLeaves(n *jnode, keys map[string]bool, out *[]*jnode) {
+	switch n.kind {
+	case "obj":
+		for i, k := range n.keys {
+			if keys[k] && n.vals[i].kind == "str" {
+				*out = append(*out, n.vals[i])
+			}
+			collectLeaves(n.vals[i], keys, out)
+		}
+	case "arr":
+		for _, c := range n.arr {
+			collectLeaves(c, keys, out)
+		}
+	}
+}
+
+// targeted mutations of the two custom leaf codecs (swap id hex, []byte base64)
+func mutateCodecLeaf(r *Rng, n *jnode) string {
+	var ids, b64s []*jnode
+	collectLeaves(n, map[string]bool{"swap_id": true}, &ids)
+	collectLeaves(n, map[string]bool{"private_key": true, "next_message": true}, &b64s)
+	if len(ids) > 0 && (r.Bool() || len(b64s) == 0) {
+		l := ids[r.Intn(len(ids))]
+		switch r.Intn(7) {
+		case 0:
+			l.s = l.s[:62]
+		case 1:
+			l.s = l.s + "00"
+		case 2:
+			l.s = strings.ToUpper(l.s)
+		case 3:
+			l.s = l.s[:63]
+		case 4:
+			l.s = "zz" + l.s[2:]
+		case 5:
+			l.s = ""
+		default:
+			l.s = l.s[:32]
+		}
+		return "id-codec"
+	}
+	if len(b64s) > 0 {
+		l := b64s[r.Intn(len(b64s))]
+		switch r.Intn(7) {
+		case 0:
+			l.s = strings.TrimRight(l.s, "=")
+		case 1:
+			l.s = l.s + "="
+		case 2:
+			if len(l.s) > 4 {
+				l.s = l.s[:4] + "\n" + l.s[4:]
+			}
+		case 3:
+			l.s = "*" + l.s
+		case 4:
+			l.s = strings.NewReplacer("+", "-", "/", "_").Replace(l.s) + "-_8="
+		case 5:
+			l.s = "QQ=="
+		default:
+			l.s = "QUI="
+		}
+		return "b64-codec"
+	}
+	return "none"
+}
+
 func mutateTree(r *Rng, n *jnode, depth int) string {
 	// returns the name of the mutation applied (exactly one per call chain)
+	if depth == 0 && r.Chance(25) {
+		if m := mutateCodecLeaf(r, n); m != "none" {
+			return m
+		}
+	}
 	if n.kind == "obj" && len(n.keys) > 0 {
 		i := r.Intn(len(n.keys))
 		c := n.vals[i]
@@ -1036,7 +1115,7 @@ func runC14(args []string) error {
 		if gerr != nil {
 			ok = "err"
 		}
-		cf.Add(term, "raw|"+buf.String(), true, "raw:"+ok, map[string]interface{}{"family": "raw", "mutation": mut, "record": buf.String(), "get_err": gerr != nil})
+		cf.Add(term, "raw|"+buf.String(), true, "raw:"+mut+":"+ok, map[string]interface{}{"family": "raw", "mutation": mut, "record": buf.String(), "get_err": gerr != nil})
 		// remove it again so that later ListAll calls on this db are not poisoned
 		st.db.Update(func(tx *bbolt.Tx) error { return tx.Bucket(swap.VerifSwapBucketName()).Delete(key) })
 	}
@@ -1064,7 +1143,7 @@ func runC14(args []string) error {
 				if r.Chance(6) {
 					m.SwapId = nil
 				}
-				if i%7 == 3 && r.Chance(20) {
+				if i%4 == 3 && r.Chance(40) {
 					m.Data.LastMessage = &swap.CancelMessage{Message: "poison"}
 					poisoned = true
 				}
